@@ -1,0 +1,30 @@
+// Copyright (c) HashiCorp, Inc.
+// SPDX-License-Identifier: MPL-2.0
+
+//go:build verif
+
+// Package verifhook provides named schedule points for verification tooling.
+// With the "verif" build tag a controller can register a function that is
+// called at every point, e.g. to park the calling goroutine.
+package verifhook
+
+import "sync/atomic"
+
+var hook atomic.Pointer[func(string)]
+
+// Set registers (or, with nil, clears) the function called at every point
+func Set(fn func(string)) {
+	if fn == nil {
+		hook.Store(nil)
+		return
+	}
+	hook.Store(&fn)
+}
+
+// Point marks a named position in the code and calls the registered function,
+// if any
+func Point(name string) {
+	if fn := hook.Load(); fn != nil {
+		(*fn)(name)
+	}
+}
